@@ -237,7 +237,7 @@ func TestC10(t *testing.T) {
 	ops := []string{"bind", "search", "modify", "add", "delete", "extended"}
 	lab.Prop[c10Case]{
 		ID: "C10", Part: "unbind",
-		Rule: "rapid: pipelines <0..8 requests (one case in eight: 15..128 requests whose handlers are ALL still blocked)> Unbind <0..8 requests, possibly further Unbinds>, written in one write() or split at generated byte offsets; unbind route absent/present (its handler may panic, recovery enabled), default route absent/present; the Unbind occasionally carries (ill-formed) content octets; any subset of the earlier handlers blocked on a gate that opens 0..40 ms later; one earlier handler in six panics after answering (recovered); one case in six runs against a server whose write deadline (1..20 ms) has passed before the pipeline is sent, so that every response write fails (earlier responses then not demanded); oracle = unbind handler exactly once iff registered, no handler entry and no response for anything after the Unbind, no response to the Unbind, every earlier request answered once, connection closed and only after the blocked handlers returned (global sequence numbers); non-trivial = >= 1 request pipelined behind the Unbind in the same write(); distinct by hash",
+		Rule: "rapid: pipelines <0..8 requests (one case in eight: 15..128 requests whose handlers are ALL still blocked)> Unbind <0..8 requests, possibly further Unbinds>, written in one write() or split at generated byte offsets; unbind route absent/present (its handler may panic, recovery enabled), default route absent/present; the Unbind occasionally carries (ill-formed) content octets; any subset of the earlier handlers blocked on a gate that opens 0..40 ms later (about one case in 60: 2.3..5.2 s later); one earlier handler in six panics after answering (recovered); one case in six runs against a server whose write deadline (1..20 ms) has passed before the pipeline is sent, so that every response write fails (earlier responses then not demanded); oracle = unbind handler exactly once iff registered, no handler entry and no response for anything after the Unbind, no response to the Unbind, every earlier request answered once, connection closed and only after the blocked handlers returned (global sequence numbers); non-trivial = >= 1 request pipelined behind the Unbind in the same write(); distinct by hash",
 		Gen: func(t *rapid.T) c10Case {
 			c := c10Case{
 				UnbindRoute:  rapid.Bool().Draw(t, "unbindroute"),
@@ -253,6 +253,12 @@ func TestC10(t *testing.T) {
 			for i := 0; i < np; i++ {
 				c.Pre = append(c.Pre, c10Req{Op: rapid.SampledFrom(ops).Draw(t, "preop"), Blocked: crowd || rapid.IntRange(0, 2).Draw(t, "blocked") == 0,
 					Panics: !crowd && rapid.IntRange(0, 5).Draw(t, "prepanics") == 0})
+			}
+			// an earlier handler that is busy for seconds when the Unbind arrives (about one case in 60): the connection is
+			// closed "once earlier in-flight handlers have finished", however long that takes
+			if np > 0 && !crowd && rapid.IntRange(0, 59).Draw(t, "longgate") == 31 {
+				c.Pre[0].Blocked = true
+				c.GateDelayMs = rapid.SampledFrom([]int{2300, 3600, 5200}).Draw(t, "longgatems")
 			}
 			npo := rapid.IntRange(0, 8).Draw(t, "npost")
 			for i := 0; i < npo; i++ {
